@@ -74,7 +74,7 @@ def record_fick(data, want=("steps", "dec", "chk", "trace")):
     out = {"parse": "ok", "steps": [], "step_exc": "", "dec": {"ok": False, "exc": "not-run"},
            "run": {"ok": False, "ev": [], "exc": "not-run", "res": {"k": "mark"}, "static": [], "has_static": False},
            "chk": {"ran": False, "ok": False, "exc": "", "sev": 0, "nfind": 0, "find_ok": True, "maxfind": 0,
-                   "json_ok": False, "sevname_ok": False},
+                   "json_ok": False, "sevname_ok": False, "loader_ran": False, "loader_ok": True, "loader_why": ""},
            "trace": {"ran": False, "ok": False, "exc": "", "ops_ok": False, "same_ast": False, "prefix_ok": True, "prefix_why": ""}}
     try:
         p = fk.Pickled.load(data)
@@ -127,6 +127,24 @@ def record_fick(data, want=("steps", "dec", "chk", "trace")):
             except (TypeError, ValueError):
                 c["json_ok"] = False
             c["sevname_ok"] = d.get("severity") == res.severity.name
+            if c["sev"] > 0:
+                # the checked loader on the same bytes (nothing may run: pickle.loads is neutralised for the call)
+                import pickle as _pk
+                import fickling
+                from fickling.exception import UnsafeFileError
+                real_loads = _pk.loads
+                _pk.loads = lambda *a, **k: "NOT-EXECUTED"
+                c["loader_ran"] = True
+                try:
+                    fickling.load(io.BytesIO(data))
+                    c["loader_ok"], c["loader_why"] = False, "loader-accepts-what-the-check-flags"
+                except UnsafeFileError as e:
+                    if e.info != d:
+                        c["loader_ok"], c["loader_why"] = False, "loader-report-differs"
+                except BaseException as e:  # noqa: BLE001
+                    c["loader_ok"], c["loader_why"] = False, "loader-raised-" + type(e).__name__
+                finally:
+                    _pk.loads = real_loads
         except BaseException as e:  # noqa: BLE001
             c["exc"] = type(e).__name__
     if "trace" in want and out["dec"]["ok"]:
@@ -240,7 +258,7 @@ def record(item):
     ref = refvm.run_ref(data)
     rec = {"id": item["id"], "prog": ops, "hex": data.hex(), "tag": item.get("tag", ""),
            "ref": {"ok": ref["ok"], "steps": ref["steps"], "ev": ref["ev"],
-                   "res": ref.get("res", {"k": "mark"}), "exc": ref.get("exc", "")}}
+                   "res": ref.get("res", {"k": "mark"}), "exc": ref.get("exc", ""), "stale": bool(ref.get("stale", False))}}
     rec["fick"] = record_fick(data, item.get("want", ("steps", "dec", "chk", "trace")))
     rec["fick"]["plain"] = {"ran": False, "equal": True, "exc": ""}
     if rec["tag"] == "plain" and rec["fick"]["dec"]["ok"]:
